@@ -9,6 +9,7 @@ import (
 
 	cid "github.com/ipfs/go-cid"
 	"github.com/ipfs/ipfs-cluster/api"
+	peer "github.com/libp2p/go-libp2p-core/peer"
 
 	"verif/simkit"
 )
@@ -28,6 +29,11 @@ func genC10(tier string, seed uint64) *simkit.Plan {
 	}
 	if r.Chance(0.1) {
 		p.SetKnob("follower", 1)
+	}
+	// a collaborative cluster: one member is a follower that the others do not
+	// trust (it is in the peerset and publishes metrics like everybody)
+	if n >= 3 && r.Chance(0.2) {
+		p.SetKnob("untrusted", int64(1+r.Intn(n)))
 	}
 	npins := r.Range(1, 12)
 	p.SetKnob("ncids", int64(npins))
@@ -118,9 +124,18 @@ func execC10(plan *simkit.Plan, run *simkit.Run) {
 	}
 	follower := plan.Knob("follower", 0) == 1
 	norepin := plan.Knob("norepin", 0) == 1
+	untrusted := int(plan.Knob("untrusted", 0)) // index+1
 	w := newWorld(run, plan, worldOpts{real: n, members: n, rmin: -1, rmax: -1, follower: follower, noRepin: norepin,
-		allocator: alloc, ncids: int(plan.Knob("ncids", 3))})
+		allocator: alloc, ncids: int(plan.Knob("ncids", 3)), followerOne: untrusted})
 	defer w.close()
+	if untrusted > 0 {
+		tr := map[peer.ID]bool{}
+		for i, id := range w.allIDs {
+			tr[id] = i != untrusted-1
+		}
+		w.sh.SetTrusted(tr)
+		run.Probe("untrusted_follower_in_peerset")
+	}
 	w.sh.CommitLatency = time.Duration(plan.Knob("commit_ms", 0)) * time.Millisecond
 	ctx := context.Background()
 	failed := -1
@@ -219,8 +234,10 @@ func execC10(plan *simkit.Plan, run *simkit.Run) {
 			run.Op()
 			if s.Via == "remove" {
 				actor := w.nodes[s.Peer%n]
-				if actor.idx == f {
-					actor = w.nodes[(f+1)%n]
+				// (a peer in follower mode refuses writes: a removal issued there
+				// re-homes nothing by design; the removal is issued at an ordinary member)
+				for k := 0; k < n && (actor.idx == f || actor.idx == untrusted-1); k++ {
+					actor = w.nodes[(actor.idx+1)%n]
 				}
 				run.Fault("peer_removed")
 				removed = f
